@@ -144,3 +144,8 @@ KNOWN = {}
 from pv import reuse  # noqa: E402
 SUBS.append(reuse.sub(ID))
 RULE += reuse.RULE
+
+# field names that are not plain str (shared sub-check, see pv/names.py)
+from pv import names  # noqa: E402
+SUBS.append(names.sub(ID))
+RULE += names.RULE
